@@ -1,6 +1,6 @@
 (* C20 -- sending applies backpressure and never hangs on a dead connection.  Statements only; proofs in Proofs/C20_*.v. *)
 From Coq Require Import List Arith Bool.
-From EN Require Import Conc.FlowControl Proofs.C20_flow.
+From EN Require Import Conc.FlowControl Proofs.C20_flow Proofs.C20_adapter.
 Import ListNotations.
 
 (* WriteFlowControl, every label sequence (drain / pause / resume / connection_lost / is_closing / cancel of ANY parked
@@ -66,6 +66,39 @@ Theorem no_waiter_leak :
                    ~ In f (w_deque s') /\ w_tasks s' = w_tasks s)).
 Proof. exact no_waiter_leak_proof. Qed.
 Print Assumptions no_waiter_leak.
+
+(* Adapter = asyncio transport + WriteFlowControl.  H_pause, explicit: the water marks are (0, 0) [Hc c] and every
+   writelines-based send happens on a transport whose writelines() calls _maybe_pause_protocol [ok_label c].  Then, for
+   every label sequence (sends of any size with any partial acceptance by the kernel, socket-writable events, transport
+   death, close(), cancellation, callbacks and wake-ups in any order): whenever a send (immediately, or when the parked
+   sender is resumed) returns normally, none of that sender's bytes is left in the user-space buffer. *)
+Theorem send_returns_only_when_flushed :
+  forall (c : tcfg) (n : nat) (ls : list alabel) (a : ad),
+    Hc c -> Forall (ok_label c) ls -> ad_run (ad_init c n) ls = Some a ->
+    forall (l : alabel) (a' : ad) (o : list wobs) (t : tid),
+      ok_label c l -> ad_step a l = Some (a', o) -> In (ODrain t ROk) o -> bytes_of t (a_buf a') = 0.
+Proof. exact send_returns_only_when_flushed_proof. Qed.
+Print Assumptions send_returns_only_when_flushed.
+
+(* Without H_pause the statement is false.  F6 (writelines() that never pauses, CPython 3.12.1): *)
+Theorem send_unflushed_writelines_refuted :
+  exists a' o, ad_step (ad_init (mkCfg 0 0 false) 1) (ASendIter 0 3 2) = Some (a', o) /\
+               In (ODrain 0 ROk) o /\ bytes_of 0 (a_buf a') = 1.
+Proof. exact send_unflushed_writelines_refuted_proof. Qed.
+Print Assumptions send_unflushed_writelines_refuted.
+
+(* F5 (a non-zero high-water mark, as kept by the datagram endpoint / listener): *)
+Theorem send_unflushed_datagram_refuted :
+  exists a' o, ad_step (ad_init (mkCfg 4 1 true) 1) (ASendTo 0 3 false) = Some (a', o) /\
+               In (ODrain 0 ROk) o /\ bytes_of 0 (a_buf a') = 3.
+Proof. exact send_unflushed_datagram_refuted_proof. Qed.
+Print Assumptions send_unflushed_datagram_refuted.
+
+(* H_pause is satisfiable and the theorem is not vacuous: a partial write parks the sender, the flush resumes it *)
+Example adapter_run_example :
+  exists a o, ad_run (ad_init (mkCfg 0 0 true) 1) [ASend 0 3 1; AReady 2; ACallback 0] = Some a /\
+              ad_step a (AWake 0) = Some (with_w (set_task 0 TIdle (a_w a)) a, o) /\ o = [ODrain 0 ROk] /\ a_buf a = [].
+Proof. eexists. eexists. split; [vm_compute; reflexivity|]. split; [vm_compute; reflexivity|]. split; reflexivity. Qed.
 
 (* non-vacuity: two parked senders, one cancelled, the other resumed *)
 Example flow_run_example :
